@@ -57,6 +57,7 @@ type Contract struct {
 	At         []AtAssert
 	Unreach    []int // block indices declared unreachable (cover guard)
 	AssumeNoPanic []string
+	AssumePure    []string // callees without contract assumed not to panic and to have no heap effect
 	Abstract   bool  // body translated with havoc tolerance; only listed obligations
 	Uses       map[string]bool
 	Lemmas     []Clause // proved lemma instances assumed at entry
@@ -71,7 +72,7 @@ type Contract struct {
 
 var clauseKW = map[string]bool{"requires": true, "ensures": true, "modifies": true, "nopanic": true, "maypanic": true,
 	"panics_when": true, "trusted": true, "pure": true, "noalloc": true, "mayalloc": true, "terminates": true, "decreases": true, "alloc": true,
-	"loop": true, "at": true, "func": true, "extern": true, "pkg": true, "uses": true, "abstract": true, "unreachable": true, "lemma": true, "lemma_ret": true, "pred": true, "global": true, "assume_nopanic": true}
+	"loop": true, "at": true, "func": true, "extern": true, "pkg": true, "uses": true, "abstract": true, "unreachable": true, "lemma": true, "lemma_ret": true, "pred": true, "global": true, "assume_nopanic": true, "assume_pure": true}
 
 var reImp = regexp.MustCompile(`<==>|==>`)
 
@@ -400,6 +401,8 @@ func (c *Contract) addClause(kw, rest, path string, line int) error {
 		} else {
 			c.LemmasRet = append(c.LemmasRet, cl)
 		}
+	case "assume_pure":
+		c.AssumePure = append(c.AssumePure, strings.TrimSpace(rest))
 	case "assume_nopanic":
 		// assume_nopanic <substring of callee description>: calls without contract matching it
 		// are assumed not to panic (listed as an assumption in the evidence)
